@@ -90,6 +90,20 @@ func genC18Spec(r *mrand.Rand, id string) gen.MsgSpec {
 	s.Subject = headerText(r)
 	s.Extra = append(s.Extra, [2]string{"X-Verif-Text", headerText(r)})
 	if r.Intn(3) == 0 {
+		// threading headers: lists of message ids (tokens of 30-70 characters separated by blanks)
+		ids := func(n int) string {
+			var out []string
+			for i := 0; i < n; i++ {
+				out = append(out, fmt.Sprintf("<%s.%d@%s.example.org>", strings.Repeat("t", 10+r.Intn(40)), r.Intn(1<<30), gen.Pick(r, []string{"lists", "mail", "a-rather-long-host-name"})))
+			}
+			return strings.Join(out, " ")
+		}
+		s.Extra = append(s.Extra, [2]string{"References", ids(2 + r.Intn(6))}, [2]string{"In-Reply-To", ids(1 + r.Intn(3))})
+		if r.Intn(2) == 0 {
+			s.Extra = append(s.Extra, [2]string{"Message-ID", ids(1)})
+		}
+	}
+	if r.Intn(3) == 0 {
 		// a header the caller has folded itself (DKIM-Signature / List-Unsubscribe style): CRLF followed by SP or HT
 		s.Preformatted = append(s.Preformatted, [2]string{"X-Verif-Pre", gen.Pick(r, []string{
 			"one line, not folded",
@@ -311,7 +325,7 @@ func runC18Case(r *ev.Run, c c18Case) {
 
 func runC18(r *ev.Run, rep *ev.ReplayDoc) ev.Summary {
 	sum := ev.Summary{
-		Rule: "(generic headers also pre-folded by the caller and set through SetGenHeaderPreformatted) seeded messages: header values from words of length 0-300 with single/multiple/leading/trailing blanks, non-ASCII words (Q and B encoders), long display names and domains; QP/base64 parts and files with contents around the 57/76-byte wrapping points, emitted by producers in chunks of {all,1,2,3,5,7,11,13,56,57,58,75,76,77,100,1000} bytes; a share is S/MIME signed. Oracle scans every physical line of every header section and every encoded body of the raw output. non-trivial = every case (all have long/folded headers or wrapped bodies); distinct by (shape, subject length)",
+		Rule: "(generic headers also pre-folded by the caller and set through SetGenHeaderPreformatted) seeded messages: header values from words of length 0-300 with single/multiple/leading/trailing blanks, non-ASCII words (Q and B encoders), long display names and domains, threading headers (References / In-Reply-To with several message ids, caller-defined Message-ID); QP/base64 parts and files with contents around the 57/76-byte wrapping points, emitted by producers in chunks of {all,1,2,3,5,7,11,13,56,57,58,75,76,77,100,1000} bytes; a share is S/MIME signed. Oracle scans every physical line of every header section and every encoded body of the raw output. non-trivial = every case (all have long/folded headers or wrapped bodies); distinct by (shape, subject length)",
 		Assumptions: []string{
 			"a header line longer than 78 characters is allowed only if (after its leading fold blank) it contains no blank, as the property states",
 			"unfolded values are compared after RFC 2047 decoding and trimming of leading/trailing blanks; blank runs inside the value must survive exactly",
